@@ -32,6 +32,8 @@ func execDescriptor(line string) *result {
 		}
 	case len(f) > 0 && f[0] == "group":
 		return runGroup(line)
+	case len(f) > 0 && f[0] == "hammer":
+		return runHammer(line)
 	}
 
 	return nil
@@ -71,7 +73,7 @@ func main() {
 	if lines := r.ReplayLines(); lines != nil {
 		for _, l := range lines {
 			f := strings.Fields(l)
-			if len(f) > 0 && (f[0] == "sched" || f[0] == "run" || f[0] == "group") {
+			if len(f) > 0 && (f[0] == "sched" || f[0] == "run" || f[0] == "group" || f[0] == "hammer") {
 				jobs = append(jobs, job{0, l})
 			}
 		}
@@ -105,6 +107,7 @@ func main() {
 				job{0, runCfg{"gpending-true", w, true, 1, 6, 0, 1, 6}.String()},
 				job{0, runCfg{"gpending-false", w, false, 1, 6, 0, 1, 7}.String()})
 		}
+		jobs = append(jobs, job{0, fmt.Sprintf("hammer %d 1", 1500*r.Scale)}, job{0, fmt.Sprintf("hammer %d 2", 1500*r.Scale)})
 		for _, d := range groupCorpus() {
 			jobs = append(jobs, job{0, d})
 		}
